@@ -525,6 +525,31 @@ BigArithContract(e) ==
                         ~isInt \/ e.op = "toreal" \/ e.txt = <<e.a, e.b>>) \o
                      Fl("print_parse_returns_same_object", e.back), <<>>, -1)
 
+(* Bit-vector operators at widths beyond the exhaustive range (32, 33, 64, 65, 128 bits): a, b = operand values
+   as decimal digit sequences, p = parameters (extract hi lo / extension or rotation amount), simp / gv = what
+   simplify / get_value returned: [k = "bv" | "bool" | "other", v (digits), w (width), b]. *)
+BigBVContract(e) ==
+    LET w == e.w
+        rot(bs, k) == [j \in 1..w |-> bs[((j - 1 - k) % w) + 1]]            \* rotate left by k (least significant first)
+        expv == CASE e.op \in {"bv_not", "bv_neg"} -> BN!BVUn(e.op, e.a, w)
+                  [] e.op = "bv_concat" -> BN!NAdd(BN!NMul(e.a, BN!NPow2(w)), e.b)
+                  [] e.op = "bv_zext" -> e.a
+                  [] e.op = "bv_sext" -> IF BN!IsNegBV(e.a, w) THEN BN!NAdd(e.a, BN!NSub(BN!NPow2(w + e.p[1]), BN!NPow2(w))) ELSE e.a
+                  [] e.op = "bv_extract" -> BN!NMod(BN!NDiv(e.a, BN!NPow2(e.p[2])), BN!NPow2(e.p[1] - e.p[2] + 1))
+                  [] e.op = "bv_rol" -> BN!OfBits(rot(BN!Bits(e.a, w), e.p[1] % w))
+                  [] e.op = "bv_ror" -> BN!OfBits(rot(BN!Bits(e.a, w), (w - (e.p[1] % w)) % w))
+                  [] e.op \in {"bv_ult", "bv_ule", "bv_slt", "bv_sle", "equals"} -> <<>>
+                  [] OTHER -> BN!BVBin(e.op, e.a, e.b, w)
+        expw == CASE e.op = "bv_concat" -> 2 * w [] e.op \in {"bv_zext", "bv_sext"} -> w + e.p[1]
+                  [] e.op = "bv_extract" -> e.p[1] - e.p[2] + 1 [] OTHER -> w
+        isRel == e.op \in {"bv_ult", "bv_ule", "bv_slt", "bv_sle", "equals"}
+        Right(o) == IF isRel THEN o.k = "bool" /\ (o.b = 1) = BN!BVRel(e.op, e.a, e.b, w)
+                    ELSE o.k = "bv" /\ o.w = expw /\ o.v = expv
+    IN  IF e.res # "ok" THEN Verdict(<<"operation_failed">>, <<>>, -1)
+        ELSE Verdict(Fl("simplify_exact_on_wide_bit_vectors", Right(e.simp)) \o
+                     Fl("get_value_exact_on_wide_bit_vectors", Right(e.gv)) \o
+                     Fl("print_parse_returns_same_object", e.back), <<>>, -1)
+
 \* ------------------------------------------------------------------ C14 / C15
 (***************************************************************************)
 (* Equality of results up to the order of commutative arguments (ACEq) and  *)
